@@ -103,6 +103,14 @@ class Driver(object):
                 self.d.add_listener(op["ev"], listener, op["prio"])
             ev["id"] = lid
         elif k == "dispatch":
+            # another dispatcher of the same process registers and dispatches the same event name in between:
+            # dispatchers share nothing
+            if not hasattr(self, "other"):
+                from clikit.api.event import EventDispatcher
+
+                self.other = EventDispatcher()
+            self.other.add_listener(op["ev"], lambda e, n, d: self.called.append(-2), 5)
+            self.other.dispatch(op["ev"], Event())
             self.called = []
             # with the caller's own Event object, or letting the dispatcher create one
             try:
